@@ -228,6 +228,12 @@ def run(spec):
             key_, dflt, attr = RULE_OF[call["fn"]]
             owners = by_name.get(call["kw"].get("name"), [])
             got = call["args"][0] if call["args"] else call["kw"].get("priority_rule_mode")
+            if call["kw"].get("name") is not None and not owners:
+                # the skill-based rules rank the candidates by their skill for the task: the name they are given is a task's name
+                res.add("task_rule", "C11.allocation_ranks_for_a_name_that_is_no_task.%s" % call["fn"],
+                        "step %s: %s was called during the allocation with name=%r, which is not the name of any task (skill maps are "
+                        "keyed by task names)" % (rec.cur.t if rec.cur is not None else "?", call["fn"], call["kw"].get("name")),
+                        rec.cur.t if rec.cur else None)
             if len(owners) == 1 and got is not None:
                 exp = st.tasks[owners[0]].get(key_)
                 exp = dflt if exp is None else exp
